@@ -44,6 +44,10 @@ type Case struct {
 	// RegisterField call is made (a warm-up whose response is not looked at) - the bindings the
 	// application registers arrive after the root has already been used.
 	LateRegister bool `json:"late_register,omitempty"`
+	// PrimeVars: the request is parsed once, resolved with these variables first (response not
+	// looked at) and then - the same parsed Executable - with Vars: what the second resolution
+	// delivers must not depend on the first.
+	PrimeVars []hx.KV `json:"prime_vars,omitempty"`
 	// Text overrides the rendered document (replay of shrunk / hand-written requests).
 	Text string `json:"text,omitempty"`
 	Note string `json:"note,omitempty"`
@@ -617,6 +621,66 @@ func (w *World) Resolve() (res map[string]interface{}, text string, panicked int
 			panicked = r
 		}
 	}()
+	if len(w.C.PrimeVars) > 0 {
+		res = ResolveReused(w.Root, text, w.C.Op, kvGo(w.C.PrimeVars), w.C.GoVars(), w.ResetCalls)
+		return
+	}
 	res = w.Root.ResolveString(text, w.C.Op, w.C.GoVars())
 	return
+}
+
+func kvGo(kvs []hx.KV) map[string]interface{} {
+	m := map[string]interface{}{}
+	for _, kv := range kvs {
+		m[kv.Key] = kv.V.Go()
+	}
+	return m
+}
+
+// ResolveReused does what Root.ResolveString does, except that the parsed request is resolved
+// with the prime variables before it is resolved with the real ones.
+func ResolveReused(root *ggql.Root, text, op string, prime, vars map[string]interface{}, between func()) map[string]interface{} {
+	var result map[string]interface{}
+	exe, err := root.ParseExecutableString(text)
+	if err == nil {
+		_, _ = root.ResolveExecutable(exe, op, prime)
+		if between != nil {
+			between()
+		}
+		if result, err = root.ResolveExecutable(exe, op, vars); result == nil {
+			result = map[string]interface{}{"data": nil}
+		}
+	}
+	if err != nil {
+		errors := ggql.FormErrorsResult(err)
+		if result == nil {
+			result = map[string]interface{}{"errors": errors}
+		}
+		result["errors"] = errors
+	}
+	return result
+}
+
+// FlipBooleans returns prime variables that give every Boolean variable of the operations the
+// opposite of the value it has in the case (supplied or default).
+func FlipBooleans(c *Case) []hx.KV {
+	have := c.VarMap()
+	seen := map[string]bool{}
+	var out []hx.KV
+	for _, o := range c.Doc.Ops {
+		for _, vd := range o.Vars {
+			if seen[vd.Name] || vd.Type.List != nil || vd.Type.Name != "Boolean" {
+				continue
+			}
+			seen[vd.Name] = true
+			cur := false
+			if v, ok := have[vd.Name]; ok && v.K == "bool" {
+				cur = v.S == "true"
+			} else if vd.Default != nil && vd.Default.K == "bool" {
+				cur = vd.Default.S == "true"
+			}
+			out = append(out, hx.KV{Key: vd.Name, V: hx.Bool(!cur)})
+		}
+	}
+	return out
 }
